@@ -240,7 +240,7 @@ def run(ctx):
             a = cmp_atom(n.test)
             ret = [x for x in n.body if isinstance(x, ast.Return)]
             if a and ret:
-                pairs_.append((a[2], norm(ret[0].value)))
+                pairs_.append((a[0] if a[0].startswith("float(") else a[2], norm(ret[0].value)))
     ok = ("float('inf')", "(None, cls.TrialValueType.INF_POS)") in pairs_ and ("float('-inf')", "(None, cls.TrialValueType.INF_NEG)") in pairs_
     ctx.check(ok, "R12.3", f.short, "inf-encoding", message=f"value_to_stored_repr encodes infinities as {pairs_}", how="+inf -> INF_POS, -inf -> INF_NEG")
 
